@@ -342,7 +342,7 @@ func c06Gen() *rapid.Generator[c06Case] {
 			c.Mode = rapid.SampledFrom([]uint32{0o700, 0o1777, 0o2775, 0o711, 0o777}).Draw(t, "mode")
 		}
 		c.State = rapid.SampledFrom([]string{"empty", "empty", "missing", "populated"}).Draw(t, "state")
-		c.Target = rapid.SampledFrom([]string{"", "", "rel", "slash", "short", "tilde"}).Draw(t, "target")
+		c.Target = rapid.SampledFrom([]string{"", "", "rel", "slash", "short", "tilde", "dotdot"}).Draw(t, "target")
 		if linkTarget(c.Target) && c.State == "missing" {
 			c.Target = "rel" // the one-character name is a link to the target and needs it to exist
 		}
@@ -365,7 +365,7 @@ func c06Gen() *rapid.Generator[c06Case] {
 				c.Inodes = 1 + rapid.IntRange(0, model.Merge(f).Count()).Draw(t, "room")
 				c.State = "empty"
 				c.PreRoot = nil
-				if linkTarget(c.Target) {
+				if linkTarget(c.Target) || c.Target == "dotdot" {
 					c.Target = ""
 				}
 				return c
@@ -376,7 +376,7 @@ func c06Gen() *rapid.Generator[c06Case] {
 				c.Exts, c.HasExts = append(c.Exts, "L"), true // a childless over-long node is then a FILE whose creation fails
 			}
 			c.State = "empty"
-			if linkTarget(c.Target) {
+			if linkTarget(c.Target) || c.Target == "dotdot" {
 				c.Target = ""
 			}
 		}
